@@ -1,6 +1,8 @@
 package ir
 
 import (
+	"crypto/sha256"
+	"encoding/hex"
 	"fmt"
 	"go/constant"
 	"go/token"
@@ -625,13 +627,24 @@ func (c *Canonicalizer) normalizeValue(v ssa.Value, preferredName ...string) str
 
 const MaxRenamerDepth = 20
 
+// MaxRenderedSCEVLen bounds the text a substituted expression may contribute to its parent.
+// Longer renderings are replaced by a digest of the full text, so nested substitutions
+// (a loop whose start mentions the outer induction variable k times, d levels deep) cost
+// O(values) instead of k^d while distinct expressions still render differently.
+const MaxRenderedSCEVLen = 256
+
 func (c *Canonicalizer) renamerFunc() loop.Renamer {
 	// Optimization: Slice-based stack avoids map allocation overhead
 	var stack []ssa.Value
 	depth := 0
+	// Each value is rendered once per renamer: substitutions are shared between operands.
+	memo := make(map[ssa.Value]string)
 
 	var renamer loop.Renamer
 	renamer = func(v ssa.Value) string {
+		if s, ok := memo[v]; ok {
+			return s
+		}
 		if depth >= MaxRenamerDepth {
 			return "<depth-limit>"
 		}
@@ -666,7 +679,13 @@ func (c *Canonicalizer) renamerFunc() loop.Renamer {
 			}
 
 			if scev, isScev := sub.(loop.SCEV); isScev {
-				return scev.StringWithRenamer(renamer)
+				s := scev.StringWithRenamer(renamer)
+				if len(s) > MaxRenderedSCEVLen {
+					sum := sha256.Sum256([]byte(s))
+					s = "<scev#" + hex.EncodeToString(sum[:12]) + ">"
+				}
+				memo[v] = s
+				return s
 			}
 
 			current = sub
